@@ -152,12 +152,17 @@ impl IncompleteTransfer {
         if let Some(mut index) =
             self.position_of_section_number_and_offset(section_number, section_offset)
         {
+            let mut found = false;
             for chunk in self.buffer.iter_mut() {
-                if chunk.len() < index {
+                if found {
+                    // Everything after the chunk that holds the position is dropped
+                    chunk.clear();
+                } else if chunk.len() < index {
                     index -= chunk.len();
                 } else {
                     // Found the chunk and split the chunk
                     let _ = chunk.split_off(index);
+                    found = true;
                 }
             }
         }
